@@ -151,6 +151,10 @@ def run(ctx):
     from . import c15
     from .. import session_engine as se
     scs = [s for s in c15.session_family(rnd, 240 if thorough else 90) if s["driver"]["kind"] == "cip"]
+    # symbolic program-scope paths of paged tag-list uploads (every follow-up request names the same scope)
+    from . import c05
+    ups = [u for u in c05.gen(rnd, 40 if thorough else 8, 3) if u["target"]["pages"] and any(x["kind"] == "program" for x in u["project"]["symbols"])]
+    scs += ups[:60 if thorough else 8]
     results = se.run_all(ctx, scs, "c09s")
     se.report(ctx, results, lambda r, clause, ev: {"label": "session-route", "shape": r["sc"]["family"]})
     ctx.traces += len(results)
